@@ -233,8 +233,8 @@ def dd_ok(s, seen=None):
 # command lines
 # ----------------------------------------------------------------------------------------
 
-VALUES = ["v", "x1", "a=b", "w", "7", "val"]
-POSITIONALS = ["p", "q", "file", "-", "x=y", "r"]
+VALUES = ["v", "x1", "a=b", "w", "7", "val", "a,b", "k=1,2", ","]   # a comma is not a separator on the command line
+POSITIONALS = ["p", "q", "file", "-", "x=y", "r", "p,q", "f,"]
 
 
 def spell(rng, d, value=None, force=None):
